@@ -598,9 +598,23 @@ func judgeHistoryY(c *core.Ctx, env *hs.Env, h []xMsg, cs any, yield func()) (ok
 	viol := func(i int, rule, sig, detail string) {
 		c.Violate(rule, sig, fmt.Sprintf("history [%s], step %d %s: %s", histString(h), i, h[i].short(), detail), cs)
 	}
+	// a third of the histories: every message arrives together with the first bytes of the next one (a
+	// client whose writes do not end on message boundaries); the reply to a message is due when the
+	// message is complete, not when the next one is
+	overlap := core.H64(histString(h))%3 == 0
+	sent := 0 // bytes of h[i] that arrived with the previous step
 	for i, m := range h {
 		evStart := len(cl.C.Events())
-		out, closed := cl.Step(m.bytes())
+		in := m.bytes()[sent:]
+		sent = 0
+		if overlap && i+1 < len(h) {
+			if nb := h[i+1].bytes(); len(nb) >= 2 {
+				sent = 1 + int(core.H64(fmt.Sprint(i, len(nb)))%uint64(len(nb)-1))
+				in = append(append([]byte{}, in...), nb[:sent]...)
+				c.Count("steps_with_the_head_of_the_next_message", 1)
+			}
+		}
+		out, closed := cl.Step(in)
 		if hangCheck(c, cl, cs) {
 			return false, run
 		}
